@@ -566,8 +566,25 @@ impl<'tcx> Interp<'tcx> {
                     for (k, rets, viol, prb, rw) in entries {
                         if *k == key {
                             self.pmemo_hits += 1;
-                            let (rets, viol, prb, rw) = (rets.clone(), viol.clone(), prb.clone(), rw.clone());
+                            let (rets, viol, mut prb, rw) = (rets.clone(), viol.clone(), prb.clone(), rw.clone());
                             self.replay_violations(&viol);
+                            // the first probe slot records the call path the entry was made under: re-root replayed paths
+                            if let Some(first) = prb.first().cloned() {
+                                if first.what == "memo_base" {
+                                    let old_base = first.data.get("path").cloned().unwrap_or_default();
+                                    let new_base = self.call_path();
+                                    prb.remove(0);
+                                    if old_base != new_base {
+                                        for p in prb.iter_mut() {
+                                            if let Some(x) = p.data.get_mut("path") {
+                                                if x.starts_with(old_base.as_str()) {
+                                                    *x = format!("{}{}", new_base, &x[old_base.len()..]);
+                                                }
+                                            }
+                                        }
+                                    }
+                                }
+                            }
                             self.probes.extend(prb);
                             self.reject_witness.extend(rw);
                             return Ok(rets.into_iter().map(|v| (st.clone(), v)).collect());
@@ -633,7 +650,7 @@ impl<'tcx> Interp<'tcx> {
         }
         st.frames.push(fr);
         self.stack.push(bi.clone());
-        let probe_this = !self.probe_pats.is_empty() && self.probe_pats.iter().any(|p| bi.name.contains(p.as_str()));
+        let probe_this = !self.probe_pats.is_empty() && self.probe_pats.iter().any(|p| bi.name.contains(p.as_str()) && (p.contains("{closure") || !bi.name.contains("{closure")));
         let probe_facts: String = if probe_this { st.facts.iter().map(|(k, v)| format!("{} => [{},{}]", k, v.0, v.1)).collect::<Vec<_>>().join(" ;; ") } else { String::new() };
         let rw_before = self.reject_witness.len();
         let saved_bb = (self.cur_bb, self.cur_call_bb);
@@ -728,9 +745,13 @@ impl<'tcx> Interp<'tcx> {
         if let Some(k) = pkey {
             if !out.is_empty() && !self.over_budget {
                 let viol = self.violations_since(&pviol_before, &bi.short);
+                let base_path = self.call_path();
                 let e = self.pmemo.entry(inst).or_default();
                 if e.len() < 64 {
-                    let prb: Vec<Probe> = self.probes[probes_before.min(self.probes.len())..].iter().take(4096).cloned().collect();
+                    let mut prb: Vec<Probe> = self.probes[probes_before.min(self.probes.len())..].iter().take(4096).cloned().collect();
+                    let mut base = std::collections::BTreeMap::new();
+                    base.insert("path".to_string(), base_path);
+                    prb.insert(0, Probe { what: "memo_base".into(), inst: String::new(), ctx: String::new(), data: base });
                     let rw: Vec<Val> = self.reject_witness[rw_before_memo.min(self.reject_witness.len())..].to_vec();
                     e.push((k, out.iter().map(|o| o.1.strip_tags()).collect(), viol, prb, rw));
                 }
